@@ -136,3 +136,8 @@ package caskettls
 //@ // against exactly that contract (safety and an empty frame), so that assumption is a proved fact
 //@ use @verif/specs/stdlib.spec:stdlib
 //@ func getPreferredDefaultCiphers
+
+//@ unit name_helpers frames=on props=C06 verify_pure=on filter=`caskettls\.normalizedName$`
+//@ use @verif/specs/stdlib.spec:stdlib
+//@ func normalizedName
+//@   pure
